@@ -88,12 +88,18 @@ class _NpProxy:
                 return self._np.array(obj, *a[1:], **kw)
         return self._np.array(obj, *a, **kw)
 
+    lift_double = False  # set by a scenario: asarray(<concrete numbers>, dtype=double) gives an object array (exact values)
+
     def asarray(self, obj, *a, **kw):
         if self._has_sym(obj):
             kw = dict(kw)
             kw.pop("dtype", None)
             return self._np.asarray(obj, dtype=object, **kw)
-        return self._np.asarray(obj, *a, **kw)
+        res = self._np.asarray(obj, *a, **kw)
+        if self.lift_double and res.dtype == np.float64 and (kw.get("dtype", a[0] if a else None) in (np.double, float)):
+            # the code under test converts its argument to double and then stores symbolic results in it
+            return res.astype(object)
+        return res
 
     def asanyarray(self, obj, *a, **kw):
         return self.asarray(obj, *a, **kw)
